@@ -426,6 +426,30 @@ type ResSpec struct {
 	Attrs  map[string]Val      `json:"attrs,omitempty"`
 	ToOne  map[string]string   `json:"to_one,omitempty"`
 	ToMany map[string][]string `json:"to_many,omitempty"`
+	// Only: the resource is a soft resource whose OWN type has just these fields of the schema type (same type name),
+	// like what UnmarshalPartialResource returns. nil = all fields.
+	Only []string `json:"only,omitempty"`
+}
+
+// ownType is the type a resource of spec rs has: the schema type, or its restriction to rs.Only.
+func (rs *ResSpec) ownType(t *TypeSpec) *TypeSpec {
+	if rs.Only == nil {
+		return t
+	}
+	sub := *t
+	sub.Wrapped = false
+	sub.Attrs, sub.Rels = nil, nil
+	for _, a := range t.Attrs {
+		if contains(rs.Only, a.Name) {
+			sub.Attrs = append(sub.Attrs, a)
+		}
+	}
+	for _, r := range t.Rels {
+		if contains(rs.Only, r.Name) {
+			sub.Rels = append(sub.Rels, r)
+		}
+	}
+	return &sub
 }
 
 // ---- materialisers
